@@ -1112,6 +1112,16 @@ static const uint8_t *unmarshal_one_fiber(
         janet_panic("fiber has incorrect stack setup");
     }
 
+    /* A fiber that can still be resumed needs a frame to continue in. */
+    int32_t fiber_status = (fiber_flags & JANET_FIBER_STATUS_MASK) >> JANET_FIBER_STATUS_OFFSET;
+    int fiber_resumable = fiber_status == JANET_STATUS_NEW ||
+                          fiber_status == JANET_STATUS_PENDING ||
+                          fiber_status == JANET_STATUS_DEBUG ||
+                          (fiber_status >= JANET_STATUS_USER5 && fiber_status <= JANET_STATUS_USER9);
+    if (frame == 0 && fiber_resumable) {
+        janet_panic("fiber has no stack frames");
+    }
+
     /* Allocate stack memory */
     fiber->capacity = fiber_stacktop + 10;
     fiber->data = janet_malloc(sizeof(Janet) * fiber->capacity);
